@@ -232,6 +232,7 @@ func (p *parser) parseFunc() Node {
 	}
 	p.assertEnd()
 	p.advance()
+	p.assertEOL()
 	p.recordComment(block)
 	p.advancePastNL()
 	fd.Body = block
@@ -291,6 +292,7 @@ func (p *parser) parseEventHandler() Node {
 	e.Body = p.parseBlock()
 	p.assertEnd()
 	p.advance()
+	p.assertEOL()
 	p.recordComment(e.Body)
 	p.advancePastNL()
 	return e
@@ -899,6 +901,7 @@ func (p *parser) parseForStatement() Node {
 	forNode.Block = p.parseBlock()
 	p.assertEnd()
 	p.advance()
+	p.assertEOL()
 	p.recordComment(forNode.Block)
 	p.advancePastNL()
 	return forNode
@@ -944,6 +947,7 @@ func (p *parser) parseWhileStatement() Node {
 	p.recordCommentString(&while.ConditionalBlock, comment)
 	p.assertEnd()
 	p.advance()
+	p.assertEOL()
 	p.recordComment(while.ConditionalBlock.Block)
 	p.advancePastNL()
 	return while
@@ -986,6 +990,7 @@ func (p *parser) parseIfStatement() Node {
 	}
 	p.assertEnd()
 	p.advance()
+	p.assertEOL()
 	p.recordComment(ifStmt)
 	p.advancePastNL()
 	return ifStmt
